@@ -132,9 +132,15 @@ def run(ch, config, res):
                     # reconnect on the same object asking for a mechanism the server does not announce: must fail, and the
                     # object must then refuse script commands until it has really authenticated again
                     srv.fault_weights = [1, 0, 0, 0, 0, 0, 0, 0]
-                    o = world.call(client, "connect", "user", "password", authmech="LOGIN")
+                    if wl.flag("bad_by_starttls", 1, 2):
+                        # ... or asking for STARTTLS, which this server does not offer: connect stops before AUTHENTICATE
+                        o = world.call(client, "connect", "user", "password", starttls=True)
+                        how = "starttls=True) although the server does not offer STARTTLS"
+                    else:
+                        o = world.call(client, "connect", "user", "password", authmech="LOGIN")
+                        how = "authmech='LOGIN') returned True although the server announces PLAIN only"
                     if o.kind == "ret" and o.value is True:
-                        fail("C15.mismatch", "op %d: connect(authmech='LOGIN') returned True although the server announces PLAIN only" % i)
+                        fail("C15.mismatch", "op %d: connect(%s" % (i, how))
                     o2 = world.call(client, "listscripts")
                     if not (o2.kind == "exc" and o2.exc_type == "Error" and not o2.writes):
                         fail("C15.server-violation", "op %d: after a failed reconnect listscripts() %r and wrote %r (Error and nothing written expected)" % (
@@ -170,7 +176,8 @@ def run(ch, config, res):
                     if not (conn_version.get(cc.id, version) if cc is not None else version):
                         srv.fault_weights = [1, 0, 0, 0, 0, 0, 0, 0]
                 elif op == "havespace":
-                    args = (gen.name(wl, "name"), [10, 100, 125, 250][wl.int("size", 4)])
+                    sz = [10, 100, 125, 250][wl.int("size", 4)]
+                    args = (gen.name(wl, "name"), str(sz) if wl.flag("size_as_str", 1, 4) else sz)
                 # a crash of the connection inside this operation: the reply is lost, cut at a drawn byte, or never comes, and
                 # the connection is closed / reset / left silent.  What the call itself reports is not constrained (the
                 # command may or may not have been applied - the server's state is still known); afterwards the same object
@@ -234,6 +241,14 @@ def run(ch, config, res):
                 fail("C15.mismatch", "%s returned %r without talking to the server" % (label, o.value))
                 break
             ok = last.status == b"OK"
+            # the answer is the answer to the question that was asked: the command carried this call's own arguments
+            if last.decoded is not None and args and op != "putscript" and op != "checkscript":
+                want = [a.encode() if isinstance(a, str) else a for a in args]
+                if op == "havespace":
+                    want[1] = int(args[1])
+                if list(last.decoded.args) != want:
+                    fail("C15.mismatch", "%s: the server was asked %r" % (label, last.decoded.raw))
+                    break
             kinds.add((op, "ok" if ok else ("forcedNO" if last.fault else "NO:" + (last.reply.code[0].decode() if last.reply.code else "-"))))
             if op in ("putscript", "deletescript", "setactive", "renamescript", "havespace", "checkscript"):
                 if (o.value is True) != ok or (not ok and o.value not in (False, None)):
